@@ -91,7 +91,7 @@ let rec show_pv b v = match v with
 let pv_str v = let b = Buffer.create 64 in show_pv b v; Buffer.contents b
 
 let err e = "E " ^ string_of_int (int_of_nat (pyerr_code e))
-let cu = function "1" -> yajilin_customF | _ -> no_custom
+let cu = function "1" -> yajilin_custom | _ -> no_custom
 let ores = function Err e -> err e | Ok None -> "N" | Ok (Some v) -> "S " ^ pv_str v
 let nat_tok t = nat_of_int (int_of_string t)
 let bool01 b = if b then "1" else "0"
@@ -109,19 +109,19 @@ let handle toks = match toks with
                  (AllowList l, r4)
              | _ -> failwith "allowed") in
            (match r3 with
-            | [af; rs] -> ores (deserialize_urlF (cu c) t (str_tok url) al (flag af) (flag rs))
+            | [af; rs] -> ores (deserialize_url_cu (cu c) t (str_tok url) al (flag af) (flag rs))
             | _ -> failwith "DU flags")
        | _ -> failwith "DU")
   | "DP" :: c :: h :: w :: r ->
       let (t, r1) = parse_term r in
       (match r1 with
-       | [x] -> ores (deserialize_problemF (cu c) t (str_tok x) (z_of_tok h) (z_of_tok w))
+       | [x] -> ores (deserialize_problem_cu (cu c) t (str_tok x) (z_of_tok h) (z_of_tok w))
        | _ -> failwith "DP")
   | "DE" :: c :: h :: w :: idx :: r ->
       let (t, r1) = parse_term r in
       (match r1 with
        | [x] ->
-         (match deF_at (cu_env (cu c) (z_of_tok h) (z_of_tok w)) t (str_tok x) (nat_tok idx) with
+         (match de_at (cu_env (cu c) (z_of_tok h) (z_of_tok w)) t (str_tok x) (nat_tok idx) with
           | Err e -> err e | Ok None -> "N"
           | Ok (Some (k, l)) -> "K " ^ string_of_int (int_of_nat k) ^ " " ^ pv_str (VList l))
        | _ -> failwith "DE")
